@@ -46,6 +46,8 @@ int
 parsec_util_keyval_parse_finalize(void)
 {
     if (NULL != key_buffer) free(key_buffer);
+    key_buffer = NULL;
+    key_buffer_len = 0;
 
     return PARSEC_SUCCESS;
 }
